@@ -477,6 +477,29 @@ class VtsHarness:
             self.rec(ctx, uid + "/len", it.to_int(it.call(it.get_attr(q, "__len__"), [], {})) == 2)
             r = it.call(it.get_attr(q, "peek"), [], {})
             self.rec(ctx, uid + "/peek-is-heap-root-and-does-not-pop", r is x and not pops)
+        elif scenario == "clear":
+            it.call(it.get_attr(q, "enqueue"), [x], {})
+            it.call(it.get_attr(q, "enqueue"), [y], {})
+            it.call(it.get_attr(q, "clear"), [], {})
+            self.rec(ctx, uid + "/clear-leaves-the-queue-empty", it.to_int(it.call(it.get_attr(q, "__len__"), [], {})) == 0 and not pops)
+            n0 = len(pushes)
+            it.call(it.get_attr(q, "enqueue"), [y], {})
+            r = it.call(it.get_attr(q, "peek"), [], {})
+            self.rec(ctx, uid + "/after-clear-the-queue-holds-only-what-is-enqueued-afterwards", len(pushes) == n0 + 1 and r is y
+                     and it.to_int(it.call(it.get_attr(q, "__len__"), [], {})) == 1)
+        elif scenario == "remove":
+            it.call(it.get_attr(q, "enqueue"), [x], {})
+            it.call(it.get_attr(q, "enqueue"), [y], {})
+            heapified = []
+            it.externals["heapq.heapify"] = Native("heapify", lambda it_, a, k: heapified.append(a[0]) and None)
+            which = ctx.choose(3, "remove the first / the second / an item that is not queued")
+            target = [x, y, Opaque("item", "z")][which]
+            r = it.call(it.get_attr(q, "remove"), [target], {})
+            left = [e[0] if isinstance(e, tuple) else it.subscript(e, 0) for e in it.get_attr(q, "items").items]
+            want = [[y], [x], [x, y]][which]
+            self.rec(ctx, uid + "/remove-takes-out-exactly-that-item-and-says-whether-it-was-there", r is (which != 2) and len(left) == len(want)
+                     and all(a is b for a, b in zip(left, want)), detail=f"returned {r!r}, left {left!r}")
+            self.rec(ctx, uid + "/remove-restores-the-heap-order-when-it-took-something-out", (len(heapified) >= 1) if which != 2 else True)
         else:
             it.call(it.get_attr(q, "enqueue"), [x], {})
             r = it.call(it.get_attr(q, "dequeue"), [], {})
@@ -498,7 +521,7 @@ class VtsHarness:
                     self.results.extend(p.results)
             for p in explore(self.run_item):
                 self.results.extend(p.results)
-            for sc in ("stamps", "dequeue"):
+            for sc in ("stamps", "dequeue", "clear", "remove"):
                 for p in explore(lambda ctx, _s=sc: self.run_pq(ctx, _s)):
                     self.results.extend(p.results)
         except Unsupported as e:
